@@ -100,6 +100,9 @@ Calls ==
     Call("setlist", <<>>, "sec", 0, "", <<"3">>),
     Call("setmulti", <<>>, "l", 0, "", <<"3", "0x">>), Call("setopt", <<>>, "i", 0, "0x", <<>>),
     Call("setopt", <<>>, "l", 0, "0b", <<>>),
+    (* an out-of-range numeral in a bulk set (refused), so that later calls run after a range error *)
+    Call("setmulti", <<>>, "i", 0, "", <<"99999999999999999999">>),
+    Call("setstr", <<>>, "vs", 0, Null, <<>>),          \* a NULL string is validated like any other value
     Call("setint", <<>>, "vi", 0, "4", <<>>),   Call("setstr", <<>>, "vs", 0, "r", <<>>),
     Call("setfloat", <<>>, "vf", 0, "2.25", <<>>) }
   \cup (IF Sch = 2
